@@ -381,6 +381,11 @@ def parse_campaign(run, texts, expect=None):
 @prop('C15')
 def C15(run):
     broken = lean_gate(run, THEOREMS['C15'])
+    if not broken:
+        from props import gen_gate
+        broken = broken + gen_gate(run, 'translator_validate', 'gen_validate', 'program',
+                                   'Gen.validate = C15.validateProg by rfl; validate_is_program (lean/Props/C15Prog.lean)',
+                                   'ElectionProfile.__validate of droop/profile.py, translated, is no longer the list lean/Props/C15Prog.lean proves the model to check')
     rng = rng_for(run)
     n = budget(run, 8000, 200000)
     es, texts = [], []
@@ -457,6 +462,11 @@ def proj_C16(c):
 @prop('C16')
 def C16(run):
     broken = lean_gate(run, THEOREMS['C16'])
+    if not broken:
+        from props import gen_gate
+        broken = broken + gen_gate(run, 'translator_validate', 'gen_validate', 'program',
+                                   'Gen.validate = C15.validateProg by rfl; validate_is_program (lean/Props/C15Prog.lean)',
+                                   'ElectionProfile.__validate of droop/profile.py, translated, is no longer the list lean/Props/C15Prog.lean proves the model to check')
     rng = rng_for(run)
     ok_tab, tabs = unicode_tables_check()
     corpus = list(VALID)
